@@ -28,7 +28,8 @@
      + t^2 * an explicit polynomial remainder, for every t, every direction, every depth: the coded derivatives ARE
      the gradient of the weighted sum (over Z or Q the first-order coefficient of a polynomial identity in t is unique).
 
-   EXTENSION (second half of this file; models C04Conv.v and C04Pool.v, proofs C04SumProofs / C04Conv*Proofs / C04PoolProofs):
+   EXTENSION (second half of this file; models C04Conv.v, C04Pool.v, C04Het.v, C04Misc.v (definitions only); proofs C04SumProofs,
+   C04ConvProofs / C04ConvDerivProofs / C04ConvThmProofs / C04ConvDualProofs, C04PoolProofs, C04HetProofs / C04KindProofs, C04MiscProofs):
    * Conv2DModel, index level as coded (im2mat / im2mat_pad + gemm of conv2d.hpp on the whole batch, reorder NHWC <-> CHWN,
      updateBackpropFilters with the extra zero row / column for even filter sizes, offset on the (pixels x filters) view of the raw
      storage, parameter layout filters [filter][row][column][channel] then offset), geometry hypothesis geo_ok = filter sizes, channels,
@@ -48,13 +49,26 @@
      weight / tap arithmetic).  NOT proved: that the weights are those of a B-spline or sum to one; the sample points of
      setStructure are modelled as coded (for non-square targets they enumerate the target column-major; see the final report).
 
-   COMPARED on every run (tools/c04.py, extracted model vs /repo): LinearModel x 7 activations, ConcatenatedModel of
-   LinearModels, Normalizer, Classifier, Conv2DModel x activations (exact on dyadic inputs with Linear / Rectifier), PoolingLayer
-   (exact, incl. tie streams), ResizeLayer (bit-exact: the float instantiation performs the floating point operations in the order
-   of the C++).   MONITORED ONLY (batch vs single, round trip, finite differences):
-   NeuronLayer, RBFLayer, CMACMap, KernelExpansion, Ensemble, heterogeneous concatenations with optimisation flags. *)
+   * ConcatenatedModel over ARBITRARY layers with optimisation flags (C04Het.v, proofs C04HetProofs / C04KindProofs):
+     C04_het_param_roundtrip (parameter vector skips frozen layers, which keep their parameters; length = numberOfParameters),
+     C04_het_batch_eq_single, C04_het_chain_rule (abstract: every layer's coded derivatives adjoint to a tangent map => the same for
+     the concatenation; gradient blocks only for optimised layers with parameters, in layer order, right length; the three derivative
+     calls agree), C04_het_layer_kinds_ok_partial / C04_het_layer_kinds_rowwise (the hypotheses hold for Conv2DModel / LinearModel /
+     NeuronLayer with an activation pair, PoolingLayer, ResizeLayer).  `_partial`: softmax / normaliser activations, Normalizer,
+     RBFLayer layers inside a concatenation are compared only.
+   * RBFLayer: C04_rbf_batch_eq_single, C04_rbf_param_roundtrip (centers | log gamma, all four training settings, given
+     log (exp x) = x).  NOT proved: the RBF parameter derivative (compared at 1e-12 and monitored by finite differences).
+   * CMACMap: C04_cmac_batch_eq_single, C04_cmac_derivative (linear in the parameters: exact identity, arbitrary tile indices).
+   * Ensemble (weighted mean): C04_ensemble_batch_eq_single.
+
+   COMPARED on every run (tools/c04.py, extracted model vs /repo): LinearModel x 7 activations, NeuronLayer x 7, Normalizer,
+   Classifier, Conv2DModel x activations (exact on dyadic inputs with Linear / Rectifier), PoolingLayer (exact, incl. tie streams),
+   ResizeLayer (bit-exact: the float instantiation performs the floating point operations in the order of the C++), RBFLayer, CMACMap,
+   Ensemble<LinearModel>, ConcatenatedModel of any of these with optimisation flags on / off (parameter vector, advertised features,
+   eval, weightedParameterDerivative, weightedInputDerivative, weightedDerivatives; homogeneous LinearModel networks are run through
+   both net models, which must agree).   MONITORED ONLY (batch vs single, round trip, finite differences): KernelExpansion. *)
 From Coq Require Import List Arith Bool ZArith Ring Lia.
-From SharkV Require Import C04Model C04Aux C04Proofs C04Conv C04SumProofs C04ConvProofs C04ConvDerivProofs C04ConvThmProofs C04ConvDualProofs C04Pool C04PoolProofs C04Het C04HetProofs C04KindProofs.
+From SharkV Require Import C04Model C04Aux C04Proofs C04Conv C04SumProofs C04ConvProofs C04ConvDerivProofs C04ConvThmProofs C04ConvDualProofs C04Pool C04PoolProofs C04Het C04HetProofs C04KindProofs C04Misc C04MiscProofs.
 Import ListNotations.
 
 (* ---------------- batch = single ---------------- *)
@@ -559,3 +573,65 @@ Proof.
   - apply (pool_kind_ok Z 0%Z 1%Z Z.add Z.mul Z.sub Z.opp C04_Z_is_a_ring).
   - apply (lin_kind_ok Z 0%Z 1%Z Z.add Z.mul Z.sub Z.opp C04_Z_is_a_ring).
 Qed.
+
+(* ======================= RBFLayer, CMACMap, Ensemble (C04Misc.v) ======================= *)
+Theorem C04_rbf_batch_eq_single :
+  forall (A : Type) (zero : A) (add mul sub : A -> A -> A) (opp : A -> A) (expA : A -> A) (m : rbf A) (X X' : list (list A)) (r r' : nat),
+    r < length X -> r' < length X' -> nth r X [] = nth r' X' [] ->
+    nth r (rbf_eval_batch zero add mul sub opp expA m X) [] = rbf_eval zero add mul sub opp expA m (nth r X []) /\
+    nth r (rbf_eval_batch zero add mul sub opp expA m X) [] = nth r' (rbf_eval_batch zero add mul sub opp expA m X') [].
+Proof. exact rbf_batch_eq_single. Qed.
+Print Assumptions C04_rbf_batch_eq_single.
+
+(* parameterVector = centers | log(gamma), setParameterVector stores exp of the second part: given log (exp x) = x (true over the
+   reals; in floating point only up to rounding, which is why the check compares RBF round trips at 1e-12) the round trip is the identity
+   for all four settings of setTrainingParameters, has numberOfParameters entries and leaves the untrained part alone *)
+Theorem C04_rbf_param_roundtrip :
+  forall (A : Type) (mul sub : A -> A -> A) (expA logA : A -> A) (ofnat : nat -> A) (half logPi : A) (m : rbf A) (theta : list A),
+    (forall x, logA (expA x) = x) -> length theta = rbf_nparams m ->
+    let m' := rbf_set mul sub expA logA ofnat half logPi m theta in
+    rbf_params logA m' = theta /\ length (rbf_params logA m') = rbf_nparams m /\ rbf_nparams m' = rbf_nparams m /\
+    (r_tc m = false -> r_centers m' = r_centers m) /\ (r_tw m = false -> r_gamma m' = r_gamma m /\ r_logn m' = r_logn m).
+Proof. exact rbf_param_roundtrip. Qed.
+Print Assumptions C04_rbf_param_roundtrip.
+
+Theorem C04_cmac_batch_eq_single :
+  forall (A : Type) (zero : A) (add mul csub cdiv : A -> A -> A) (ofnat : nat -> A) (half : A) (trunc : A -> nat) (oneA : A)
+         (g : cmac A) (theta : list A) (X X' : list (list A)) (r r' : nat),
+    r < length X -> r' < length X' -> nth r X [] = nth r' X' [] ->
+    nth r (cmac_eval_batch zero add mul csub cdiv ofnat half trunc oneA g theta X) [] = cmac_eval zero add mul csub cdiv ofnat half trunc oneA g theta (nth r X []) /\
+    nth r (cmac_eval_batch zero add mul csub cdiv ofnat half trunc oneA g theta X) [] =
+    nth r' (cmac_eval_batch zero add mul csub cdiv ofnat half trunc oneA g theta X') [].
+Proof. exact cmac_batch_eq_single. Qed.
+Print Assumptions C04_cmac_batch_eq_single.
+
+(* CMACMap is linear in its parameter vector (= the parameter vector itself: the round trip is trivial): the weighted output sum at
+   theta + t dtheta is EXACTLY its value at theta plus t * <coded weightedParameterDerivative, dtheta>, for whatever tile indices the
+   float arithmetic of getArrayIndexForTiling produces (csub, cdiv, trunc, ... are arbitrary) *)
+Theorem C04_cmac_derivative :
+  forall (A : Type) (zero one : A) (add mul sub : A -> A -> A) (opp : A -> A),
+    ring_theory zero one add mul sub opp eq ->
+    forall (csub cdiv : A -> A -> A) (ofnat : nat -> A) (half : A) (trunc : A -> nat) (oneA : A)
+           (g : cmac A) (theta dtheta : list A) (X C : list (list A)) (t : A),
+      length theta = cmac_nparams g -> length dtheta = cmac_nparams g -> rows (c_nout g) C -> length C = length X ->
+      fr A zero add mul C (cmac_eval_batch zero add mul csub cdiv ofnat half trunc oneA g (vadd add theta (vscale mul t dtheta)) X) =
+      add (fr A zero add mul C (cmac_eval_batch zero add mul csub cdiv ofnat half trunc oneA g theta X))
+          (mul t (dot zero add mul (cmac_wpd zero add mul csub cdiv ofnat half trunc oneA g X C) dtheta)).
+Proof. exact cmac_derivative. Qed.
+Print Assumptions C04_cmac_derivative.
+
+(* Ensemble with vector outputs (weighted mean of the members): batch = single whenever every member evaluates row by row *)
+Theorem C04_ensemble_batch_eq_single :
+  forall (A : Type) (zero : A) (add mul div : A -> A -> A) (nout : nat)
+         (members : list (A * (list (list A) -> list (list A)))) (X X' : list (list A)) (r r' : nat),
+    Forall (member_rowwise A) members ->
+    r < length X -> r' < length X' -> nth r X [] = nth r' X' [] ->
+    nth r (ens_eval_batch zero add mul div nout members X) [] = ens_eval zero add mul div nout members (nth r X []) /\
+    nth r (ens_eval_batch zero add mul div nout members X) [] = nth r' (ens_eval_batch zero add mul div nout members X') [].
+Proof. exact ens_batch_eq_single. Qed.
+Print Assumptions C04_ensemble_batch_eq_single.
+
+(* LinearModel members are row-wise, so the hypothesis is satisfiable *)
+Example C04_ensemble_member_example :
+  forall (l : layer Z), member_rowwise Z (2%Z, fun X => lin_eval_batch 0%Z Z.add Z.mul l X).
+Proof. intros l. exists (lin_eval 0%Z Z.add Z.mul l). intros X. apply (lin_batch_is_map Z 0%Z 1%Z Z.add Z.mul Z.sub Z.opp C04_Z_is_a_ring). Qed.
